@@ -69,7 +69,7 @@ ADDED = {
  "C03": " Added later: verify on key/signature pairs engineered so that the spectrum it inverts is q-1 on an aligned block of slots (every block size and offset); the full unary-run ladder 0..=130 at every alignment; verify under every scripted shape of HashToPoint's XOF stream (runs of up to 2048 rejected chunks, many rejections spread out, periodic rejections) through the XOF hook. Eleventh round: the same coefficient-domain steering of s1 (all indices, every residue class modulo 2..64, halves) for verify's norm accumulators.",
  "C04": " Added later: steering seeds on which an invertible candidate misses the Gram-Schmidt bound by less than 1 (confirmed by a reference walk at run time); the Gram-Schmidt quantity of key generation as a component against the definition on 64 (thorough 512) first candidates per variant.",
  "C05": " Added later: decoder call histories on one thread (valid keys of both variants and rejected strings, all pairs and triples x,y,x); runs of zero coefficients (length 1..24, 32, 40, 64 x start position) in f, g, F through the reference encoder, from_bytes and to_bytes; E5 program `decode` (three threads decoding, re-encoding and signing concurrently).",
- "C06": " Added later: the reserved value at every subset of size 2 and 3 of 12 secret-key field positions; out-of-range values at every pair of 6 public-key positions.",
+ "C06": " Added later: the reserved value at every subset of size 2 and 3 of 12 secret-key field positions; out-of-range values at every pair of 6 public-key positions. Eleventh round: the reserved value -128 in F fields of shifted bases F + c X^k f of generated keys (still NTRU bases: only the field test can reject); the oracle is three-valued for secret keys (malformed: reject; well-formed NTRU basis with G in range: accept; well-formed but not a basis: either, canonical if accepted).",
  "C07": " Added later: S6 - every sequence of 2..4 (thorough 5) coefficient tokens over a 10-token alphabet with invalid tokens, and every pair of tokens at 9 positions of a production-size body. Eleventh round: unary runs at the widths of 10-, 12-, 15- and 16-bit counters (1023..65537 zeros) in an 8300-byte buffer.",
  "C08": " Added later: key copies (clones before / after first use, clone of a clone, objects decoded twice) signing in every order of a depth-3 history; a message-length ladder (every length 0..=1100, thorough 0..=4200, and lengths around 2^13..2^20); salt entropy by information flow: with the generator replaced by a fixed word stream, at least 320 of its first 2048 bits must influence the salt.",
  "C09": " Added later: call pairs on one thread over all ordered pairs of (mu, sigma', sigma_min) cells; a centre ladder (mu = +-(k + f), k up to 32000, f at the ends and middle of [0,1)).",
